@@ -444,6 +444,37 @@ func runC07(c *fw.Ctx) {
 	}
 	foldKeys := [][2]string{{"id", "ID"}, {"k", string(rune(0x212a))}, {"s", string(rune(0x17f))}, {"key", "key "}, {"key", " key"}, {"e" + string(rune(0x301)), string(rune(0xe9))},
 		{"a", "A"}, {"ss", string(rune(0xdf))}, {"i", string(rune(0x130))}, {"x", "x" + string(rune(0))}, {"1", "01"}, {"1", "1.0"}, {"true", "True"}}
+	// strings that collide under common hash functions and checksums, as elements, as values, as keys, alone and nested,
+	// and random strings with a checksum-neutral edit (same length, byte sum and weighted sum)
+	c.Cases("digest-collisions", len(spec.CollisionPairs)*4+200, true, func(i int, r *rng.R) {
+		var x, y string
+		if i < len(spec.CollisionPairs)*4 {
+			x, y = spec.CollisionPairs[i/4][0], spec.CollisionPairs[i/4][1]
+		} else {
+			x = spec.GenStr(r)
+			for len(x) < 3 || len(x) > 40 {
+				x = fmt.Sprintf("order-%d-%s", r.Intn(1000), c05Strs[r.Intn(len(c05Strs))])
+			}
+			y = spec.ChecksumNeutral(r, x)
+			if y == "" {
+				x = fmt.Sprintf("item %04d of %04d", r.Intn(10000), r.Intn(10000))
+				y = spec.ChecksumNeutral(r, x)
+			}
+		}
+		var a, b *spec.Spec
+		switch i % 4 {
+		case 0:
+			a, b = spec.ListV(spec.StrV(x)), spec.ListV(spec.StrV(y))
+		case 1:
+			a, b = spec.ObjV(x, spec.IntV(1)), spec.ObjV(y, spec.IntV(1))
+		case 2:
+			a, b = spec.ObjV("k", spec.ListV(spec.IntV(1), spec.StrV(x), spec.StrV(y))), spec.ObjV("k", spec.ListV(spec.IntV(1), spec.StrV(y), spec.StrV(x)))
+		default:
+			a, b = spec.ObjV(x, spec.StrV(y), y, spec.StrV(x)), spec.ObjV(x, spec.StrV(x), y, spec.StrV(y))
+		}
+		c.Count("digest_collision_pairs")
+		c07Pair(c, r, a, b, fmt.Sprintf("strings that collide under a common digest: %q / %q", x, y))
+	})
 	c.Cases("flattening-collisions", len(seps)*4+len(foldKeys), true, func(i int, r *rng.R) {
 		var a, b *spec.Spec
 		var desc string
